@@ -21,6 +21,7 @@ DOC = {
     'R10': 'top-level `match opcode {..}` split into one function per arm plus a generated dispatcher that is itself verified against the shared contract',
     'R11': 'is_some_and(|c| E) -> match on the Option with the closure body inlined',
     'R18': 'for m in &self.mutators { B } -> index loop over the opaque list of registered mutators (vf_mutators_len / vf_mutator_at)',
+    'R19': 'builder methods: `mut self` parameter -> `self` plus `let mut vf_self = self;` with self renamed in the body (Verus rejects `mut self`)',
     'R17': 'alpha-renaming of a local variable whose name is a reserved word inside verus! (int)',
     'R16': 'for _ in 0..N { B } -> let mut vf_i = 0; while vf_i < N { B; vf_i += 1 } (B without continue)',
     'R15': 'X.iter().filter(|&&op| P).copied().collect() -> explicit while loop pushing the elements that satisfy P, in order',
@@ -229,6 +230,18 @@ def r18(text, args, label):
     return text
 
 
+def r19(text, args, label):
+    """fn f(mut self, ..) -> Self { B }  ->  fn f(self, ..) -> Self { let mut vf_self = self; B[self := vf_self] }
+    (a `mut` by-value parameter is a local rebinding; Verus does not accept `mut self`).  The signature half is
+    done by `//@sigsubst mut self => self`."""
+    m = mask(text)
+    out, pos = [], 0
+    for mm in re.finditer(r'(?<![\w.])self(?!\w)', m):
+        out.append(text[pos:mm.start()] + 'vf_self')
+        pos = mm.end()
+    return '\n        let mut vf_self = self;' + ''.join(out) + text[pos:]
+
+
 def r17(text, args, label):
     """alpha-rename a local variable whose name is reserved inside verus! (e.g. `int`): args = [old, new]"""
     old, new = args
@@ -315,7 +328,7 @@ def r14(text, args, label):
     return ''.join(out)
 
 
-RULES = {'R4': r4, 'R18': r18, 'R17': r17, 'R16': r16, 'R15': r15, 'R12ALL': r12all, 'R14': r14, 'R1': r1, 'R2': r2, 'R3': r3, 'R11': r11, 'R12': r12}
+RULES = {'R19': r19, 'R4': r4, 'R18': r18, 'R17': r17, 'R16': r16, 'R15': r15, 'R12ALL': r12all, 'R14': r14, 'R1': r1, 'R2': r2, 'R3': r3, 'R11': r11, 'R12': r12}
 
 
 def apply(name, text, args, label):
